@@ -16,18 +16,28 @@ Definition coherent_with (s : scheme) (D : dataset) (U : list nat) (R : ranking)
      cmp_eqb (Z.compare (bucket_id R o) (bucket_id R p))
              (if pref s D p o =? -1 then Lt else if pref s D p o =? 0 then Eq else Gt)) U) U.
 
-Definition judge_kwik (c : scheme * dataset * list nat * list nat * ranking * option ranking) : nat :=
-  let '(s, D, U0, script, out, target) := c in
+(** last sentence of the property, on the library's answer: at every recursion step (the pivot it drew, the elements it had to
+    place - both observed at the call of the random choice), each element ends before / with / after the pivot according to the
+    cheapest pairwise placement *)
+Definition steps_respected (s : scheme) (D : dataset) (out : ranking) (steps : list (nat * list nat)) : bool :=
+  forallb (fun st => let '(p, els) := st in
+    forallb (fun o => Nat.eqb p o ||
+      cmp_eqb (Z.compare (bucket_id out o) (bucket_id out p))
+              (if pref s D p o =? -1 then Lt else if pref s D p o =? 0 then Eq else Gt)) els) steps.
+
+Definition judge_kwik (c : scheme * dataset * list nat * list nat * ranking * option ranking * list (nat * list nat)) : nat :=
+  let '(s, D, U0, script, out, target, steps) := c in
   let m := match kwiksort s D U0 script with Some r => ranking_eqb r out | None => false end in
   let spec :=
     is_perm (elems out) U0 && forallb (fun b => negb (Nat.eqb (length b) 0)) out
+    && steps_respected s D out steps
     && match target with
        | Some R => negb (coherent_with s D U0 R) || ranking_eqb out R
        | None => true
        end in
   code m spec.
-Definition show_kwik (c : scheme * dataset * list nat * list nat * ranking * option ranking) :=
-  let '(s, D, U0, script, _, _) := c in kwiksort s D U0 script.
+Definition show_kwik (c : scheme * dataset * list nat * list nat * ranking * option ranking * list (nat * list nat)) :=
+  let '(s, D, U0, script, _, _, _) := c in kwiksort s D U0 script.
 
 (** unit level: [_where_should_it_be] against the definition of the costs *)
 Definition judge_where (c : scheme * dataset * nat * nat * Z) : nat :=
